@@ -42,6 +42,7 @@ def XCall.writtenParents2 (f : Forest) (c : XCall) : List Nat := c.writtenParent
     remove_insignificant_whitespace. -/
 def XCall.framed2 : XCall → Bool
   | .call (.mapClear _ _) | .call (.appendEntryNode _ _ _) | .call (.anyAppend _ _) => true
+  | .removeInsignificantWhitespace _ => true
   | c => c.framed
 
 end Forest
